@@ -466,11 +466,40 @@ def dsl_distinct_environments(spec) -> int:
 
 
 # ------------------------------------------------------------------------------------------------------------
+@st.composite
+def dosini_spec(draw):
+    """A small legacy (DOSINI) package directory. `stale`: the directory also holds instance files that an earlier load
+    with other options left next to the package files (stage<N>.instance.conf, experiment.instance.conf); a package
+    load must not pick them up, whatever order the file system lists them in."""
+    nstages = draw(st.sampled_from([1, 2, 2, 3]))
+    word = draw(st.sampled_from(["package", "pkg-word"]))
+    files = {"conf/experiment.conf": "[ENV-TOOLS]\nAN_ENV_VAR = 1\n",
+             "conf/variables.conf": "[GLOBAL]\nword = %s\ncount = 1\n" % word}
+    for s_ in range(nstages):
+        sections = []
+        for name in draw(st.lists(st.sampled_from(["Gen", "Use", "Post"]), min_size=1, max_size=2, unique=True)):
+            refs = "stage0.Gen:ref" if s_ > 0 and "[Gen]" in files.get("conf/stages.d/stage0.conf", "") else ""
+            sections.append("[%s]\nexecutable = echo\narguments = %%(word)s-%d %s\n%s" % (
+                name, s_, refs, ("references = %s\n" % refs) if refs else ""))
+        files["conf/stages.d/stage%d.conf" % s_] = "\n".join(sections)
+    stale = draw(st.booleans())
+    if stale:
+        files["conf/experiment.instance.conf"] = "[ENV-TOOLS]\nAN_ENV_VAR = stale\n"
+        for s_ in draw(st.lists(st.integers(0, nstages - 1), min_size=1, max_size=nstages, unique=True)):
+            body = files["conf/stages.d/stage%d.conf" % s_].replace("%(word)s", "stale-instance")
+            files["conf/stages.d/stage%d.instance.conf" % s_] = "[META]\nword = stale\n\n" + body
+    return {"kind": "dosini", "files": files, "stale": stale, "platform": None, "varfiles": [], "varorder": [],
+            "nstages": nstages}
+
+
 def package_spec():
-    return st.one_of(flowir_spec(), flowir_spec(), dsl_spec())
+    return st.one_of(flowir_spec(), flowir_spec(), flowir_spec(), dsl_spec(), dsl_spec(), dosini_spec())
 
 
 def documents(spec) -> dict:
+    if spec["kind"] == "dosini":
+        return {"doc": {}, "files": dict(spec["files"]), "layout": "dosini", "manifest": {}, "varfiles": [],
+                "varorder": [], "kind": "dosini", "platform": None}
     d = flowir_documents(spec) if spec["kind"] == "flowir" else dsl_documents(spec)
     d["varfiles"] = [{"name": f["name"], "fmt": f["fmt"], "doc": _varfile_doc(f)} for f in spec["varfiles"]]
     d["varorder"] = list(spec["varorder"])
@@ -491,6 +520,9 @@ def _varfile_doc(f):
 def features(spec) -> dict:
     """Independent facts about the spec used for the non-trivial rule and the label histogram."""
     cont = contested(spec["varfiles"], spec["varorder"])
+    if spec["kind"] == "dosini":
+        return {"kind": "dosini", "nvarfiles": 0, "contested": 0, "nenv": 1, "duplicate_steps": 0,
+                "repeated_path": False, "nontrivial": bool(spec["stale"])}
     if spec["kind"] == "flowir":
         nenv = len({n for p in spec["envs"].values() for n in p})
         dup = 0
